@@ -979,4 +979,387 @@ theorem select_spec (c : Cfg) (r : Reader) (s : State) (b : Bucket) (lo : Nat) (
   subst hl
   exact ⟨rfl, o3.trans t2, t3, t4⟩
 
+/-! ### what the repaired `Select` yields, key by key -/
+
+theorem mem_keys_iff {l : List (Key × α)} {k : Key} : k ∈ keys l ↔ ∃ d, (k, d) ∈ l := by
+  unfold keys
+  constructor
+  · intro h
+    obtain ⟨a, ha, rfl⟩ := List.mem_map.mp h
+    exact ⟨a.2, ha⟩
+  · rintro ⟨d, hd⟩
+    exact List.mem_map.mpr ⟨(k, d), hd, rfl⟩
+
+theorem sorted_unique {l : List (Key × α)} (hs : Sorted l) {k : Key} {d d' : α}
+    (h : (k, d) ∈ l) (h' : (k, d') ∈ l) : d = d' := by
+  induction l with
+  | nil => simp at h
+  | cons e r ih =>
+    obtain ⟨h1, h2⟩ := sorted_cons_iff.mp hs
+    rcases List.mem_cons.mp h with h | h <;> rcases List.mem_cons.mp h' with h' | h'
+    · rw [← h] at h'; exact (Prod.mk.inj h').2.symm
+    · have := h1 k (mem_keys_iff.mpr ⟨d', h'⟩); rw [← h] at this; simp at this
+    · have := h1 k (mem_keys_iff.mpr ⟨d, h⟩); rw [← h'] at this; simp at this
+    · exact ih h2 h h'
+
+theorem mem_rangeOf {l : KV} {lo : Nat} {hi : Option Nat} {e : Elem} :
+    e ∈ rangeOf l lo hi ↔ e ∈ l ∧ inRange lo hi e.1 = true := by
+  simp [rangeOf]
+
+theorem keys_rangeOf {l : KV} {lo : Nat} {hi : Option Nat} {k : Key} :
+    k ∈ keys (rangeOf l lo hi) ↔ k ∈ keys l ∧ inRange lo hi k = true := by
+  rw [mem_keys_iff, mem_keys_iff]
+  constructor
+  · rintro ⟨d, hd⟩
+    obtain ⟨h1, h2⟩ := mem_rangeOf.mp hd
+    exact ⟨⟨d, h1⟩, h2⟩
+  · rintro ⟨⟨d, hd⟩, h2⟩
+    exact ⟨d, mem_rangeOf.mpr ⟨hd, h2⟩⟩
+
+def live (d : VData) : Prop := d.isDel = false ∧ d.isEmptyVer = false
+
+theorem mem_stripL_fixed {l : KV} {e : Elem} : e ∈ stripL fixed l ↔ e ∈ l ∧ live e.2 := by
+  simp [stripL, fixed, live]
+
+/-- the repaired `Select`: an entry is yielded iff it is in the range and either a pending write that
+is not a delete mark, or — its key not being written in this execution — a live entry of the reader -/
+theorem mem_selList_fixed {r : Reader} {s : State} (hr : r.WF) (hi : Inv r s) (b : Bucket) (lo : Nat)
+    (hiB : Option Nat) (e : Elem) :
+    e ∈ selList fixed r s b lo hiB ↔
+      inRange lo hiB e.1 = true ∧
+        ((e ∈ s.outputs b ∧ e.2.isDel = false) ∨
+         (e.1 ∉ keys (s.outputs b) ∧ e ∈ r.sel b ∧ live e.2)) := by
+  have hO : Sorted (rangeOf (s.outputs b) lo hiB) := sorted_filter _ (hi.sortedOut b)
+  have hF : Sorted (stripL fixed (rangeOf (s.inputs b) lo hiB)) :=
+    sorted_filter _ (sorted_filter _ (hi.sortedIn b))
+  have hSB : Sorted (stripL fixed (rangeOf (r.sel b) lo hiB)) :=
+    sorted_filter _ (sorted_filter _ (hr.sorted b))
+  -- entries of the inputs iterator are entries of the backend iterator
+  have hsub : ∀ x, x ∈ stripL fixed (rangeOf (s.inputs b) lo hiB) → x ∈ stripL fixed (rangeOf (r.sel b) lo hiB) := by
+    intro x hx
+    obtain ⟨hx1, hx2⟩ := mem_stripL_fixed.mp hx
+    obtain ⟨hx3, hx4⟩ := mem_rangeOf.mp hx1
+    have hg : r.get b x.1 = some x.2 := hi.faithful b x.1 x.2 (mem_find_of_sorted (hi.sortedIn b) hx3)
+    rcases hr.getSel b x.1 x.2 hg with h | h | h
+    · exact mem_stripL_fixed.mpr ⟨mem_rangeOf.mpr ⟨h, hx4⟩, hx2⟩
+    · rw [hx2.1] at h; exact absurd h (by simp)
+    · rw [hx2.2] at h; exact absurd h (by simp)
+  have hinner : e ∈ merge (stripL fixed (rangeOf (s.inputs b) lo hiB)) (stripL fixed (rangeOf (r.sel b) lo hiB))
+      ↔ e ∈ stripL fixed (rangeOf (r.sel b) lo hiB) := by
+    rw [mem_merge _ _ hF hSB]
+    constructor
+    · rintro (h | ⟨h, _⟩)
+      · exact hsub e h
+      · exact h
+    · intro h
+      by_cases hk : e.1 ∈ keys (stripL fixed (rangeOf (s.inputs b) lo hiB))
+      · obtain ⟨d, hd⟩ := mem_keys_iff.mp hk
+        have := sorted_unique hSB (hsub _ hd) (show (e.1, e.2) ∈ _ from h)
+        left; rw [this] at hd; exact hd
+      · exact Or.inr ⟨h, hk⟩
+  unfold selList filterOut
+  rw [List.mem_filter, mem_merge _ _ hO (sorted_merge _ _ hF hSB), hinner, mem_stripL_fixed, mem_rangeOf,
+    mem_rangeOf, keys_rangeOf]
+  simp only [fixed, Bool.not_eq_eq_eq_not, Bool.not_true]
+  constructor
+  · rintro ⟨(⟨h1, h2⟩ | ⟨⟨⟨h1, h2⟩, h3⟩, h4⟩), h5⟩
+    · exact ⟨h2, Or.inl ⟨h1, h5⟩⟩
+    · exact ⟨h2, Or.inr ⟨fun hk => h4 ⟨hk, h2⟩, h1, h3⟩⟩
+  · rintro ⟨h1, (⟨h2, h3⟩ | ⟨h2, h3, h4⟩)⟩
+    · exact ⟨Or.inl ⟨h2, h1⟩, h3⟩
+    · exact ⟨Or.inr ⟨⟨⟨h3, h1⟩, h4⟩, fun hk => h2 hk.1⟩, h4.1⟩
+
+theorem sorted_selList {r : Reader} {s : State} (c : Cfg) (hr : r.WF) (hi : Inv r s) (b : Bucket) (lo : Nat)
+    (hiB : Option Nat) : Sorted (selList c r s b lo hiB) :=
+  sorted_filter _ (sorted_merge _ _ (sorted_filter _ (hi.sortedOut b))
+    (sorted_merge _ _ (sorted_filter _ (sorted_filter _ (hi.sortedIn b)))
+      (sorted_filter _ (sorted_filter _ (hr.sorted b)))))
+
+/-- two ordered lists, the second contained in the first and containing the first `n` entries of the
+first: their first `n` entries coincide -/
+theorem take_eq_of_sub {α : Type} : ∀ (L L' : List (Key × α)) (n : Nat), Sorted L → Sorted L' →
+    (∀ x ∈ L', x ∈ L) → (∀ x ∈ L.take n, x ∈ L') → L'.take n = L.take n := by
+  intro L
+  induction L with
+  | nil =>
+    intro L' n _ _ hsub _
+    cases L' with
+    | nil => rfl
+    | cons a l => exact absurd (hsub a List.mem_cons_self) (by simp)
+  | cons x xs ih =>
+    intro L' n hs hs' hsub htake
+    cases n with
+    | zero => simp
+    | succ m =>
+      obtain ⟨hx1, hx2⟩ := sorted_cons_iff.mp hs
+      have hxL' : x ∈ L' := htake x (by simp)
+      cases L' with
+      | nil => simp at hxL'
+      | cons a l =>
+        obtain ⟨ha1, ha2⟩ := sorted_cons_iff.mp hs'
+        have hax : a = x := by
+          rcases List.mem_cons.mp hxL' with h | h
+          · exact h.symm
+          · have h1 : a.1 < x.1 := ha1 _ (mem_keys_of_mem h)
+            rcases List.mem_cons.mp (hsub a List.mem_cons_self) with h2 | h2
+            · rw [h2] at h1; omega
+            · have := hx1 _ (mem_keys_of_mem h2); omega
+        subst hax
+        simp only [List.take_succ_cons]
+        congr 1
+        apply ih l m hx2 ha2
+        · intro y hy
+          rcases List.mem_cons.mp (hsub y (List.mem_cons_of_mem _ hy)) with h | h
+          · have := ha1 _ (mem_keys_of_mem hy); rw [h] at this; omega
+          · exact h
+        · intro y hy
+          have hy' : y ∈ (a :: xs).take (m + 1) := by simp [hy]
+          rcases List.mem_cons.mp (htake y hy') with h | h
+          · have := hx1 _ (mem_keys_of_mem (List.mem_of_mem_take hy)); rw [h] at this; omega
+          · exact h
+
+/-! ### programs -/
+
+theorem select_reach {r : Reader} {s : State} (c : Cfg) (hr : r.WF) (hi : Inv r s) (b : Bucket) (lo : Nat)
+    (hiB : Option Nat) (n : Nat) : Reach r s (select c r s b lo hiB n).1 := by
+  cases h : badRange lo hiB with
+  | true => rw [select_bad c r s b lo hiB n h]; exact Reach.refl r s
+  | false => exact (select_spec c r s b lo hiB n hr hi h).2.1
+
+/-- the value an op writes to key `k` of bucket `b`, if it writes there -/
+def writeOf (b : Bucket) (k : Key) : Op → Option Nat
+  | .put b' k' v => if b' = b ∧ k' = k then some v else none
+  | .del b' k' => if b' = b ∧ k' = k then some 0 else none
+  | _ => none
+
+/-- the latest write of a program to key `k` of bucket `b` -/
+def lastWrite (b : Bucket) (k : Key) : List Op → Option Nat
+  | [] => none
+  | op :: ops => match lastWrite b k ops with
+    | some v => some v
+    | none => writeOf b k op
+
+theorem step_inv {r : Reader} {s : State} (c : Cfg) (hr : r.WF) (hi : Inv r s) (op : Op) :
+    Inv r (stepOp c r s op).1 := by
+  cases op with
+  | get b k => exact (get_reach r s b k).inv hi
+  | put b k v => exact put_inv hi b k v
+  | del b k => exact put_inv hi b k 0
+  | sel b lo hiB n => exact (select_reach c hr hi b lo hiB n).inv hi
+
+theorem step_mono {r : Reader} {s : State} (c : Cfg) (hr : r.WF) (hi : Inv r s) (op : Op) :
+    ∀ b k d, s.inputs.get b k = some d → (stepOp c r s op).1.inputs.get b k = some d := by
+  cases op with
+  | get b k => exact (get_reach r s b k).mono
+  | put b k v => exact (put_inputs_reach r s b k v).mono
+  | del b k => exact (put_inputs_reach r s b k 0).mono
+  | sel b lo hiB n => exact (select_reach c hr hi b lo hiB n).mono
+
+theorem step_outputs {r : Reader} {s : State} (c : Cfg) (hr : r.WF) (hi : Inv r s) (op : Op) (b : Bucket) (k : Key) :
+    (stepOp c r s op).1.outputs.get b k =
+      match writeOf b k op with
+      | some v => some ⟨0, v⟩
+      | none => s.outputs.get b k := by
+  cases op with
+  | get b' k' => simp only [stepOp, writeOf]; rw [(get_reach r s b' k').outputs_eq]
+  | put b' k' v =>
+    simp only [stepOp, writeOf, put_outputs]
+    by_cases h : b' = b ∧ k' = k
+    · obtain ⟨rfl, rfl⟩ := h; simp [Store.get_put_same]
+    · simp only [h, if_false]
+      exact Store.get_put_other _ _ _ _ _ _ (fun h' => h ⟨h'.1.symm, h'.2.symm⟩)
+  | del b' k' =>
+    simp only [stepOp, writeOf, del, put_outputs]
+    by_cases h : b' = b ∧ k' = k
+    · obtain ⟨rfl, rfl⟩ := h; simp [Store.get_put_same]
+    · simp only [h, if_false]
+      exact Store.get_put_other _ _ _ _ _ _ (fun h' => h ⟨h'.1.symm, h'.2.symm⟩)
+  | sel b' lo hiB n =>
+    simp only [stepOp, writeOf]; rw [(select_reach c hr hi b' lo hiB n).outputs_eq]
+
+theorem run_cons (c : Cfg) (r : Reader) (s : State) (op : Op) (ops : List Op) :
+    run c r s (op :: ops) =
+      ((run c r (stepOp c r s op).1 ops).1, (stepOp c r s op).2 :: (run c r (stepOp c r s op).1 ops).2) := by
+  simp only [run]
+
+theorem run_inv {r : Reader} (c : Cfg) (hr : r.WF) : ∀ (ops : List Op) (s : State), Inv r s →
+    Inv r (run c r s ops).1 := by
+  intro ops
+  induction ops with
+  | nil => intro s hi; exact hi
+  | cons op ops ih => intro s hi; rw [run_cons]; exact ih _ (step_inv c hr hi op)
+
+theorem run_mono {r : Reader} (c : Cfg) (hr : r.WF) : ∀ (ops : List Op) (s : State), Inv r s →
+    ∀ b k d, s.inputs.get b k = some d → (run c r s ops).1.inputs.get b k = some d := by
+  intro ops
+  induction ops with
+  | nil => intro s _ b k d h; exact h
+  | cons op ops ih =>
+    intro s hi b k d h
+    rw [run_cons]
+    exact ih _ (step_inv c hr hi op) b k d (step_mono c hr hi op b k d h)
+
+theorem run_outputs {r : Reader} (c : Cfg) (hr : r.WF) (b : Bucket) (k : Key) :
+    ∀ (ops : List Op) (s : State), Inv r s →
+      (run c r s ops).1.outputs.get b k =
+        match lastWrite b k ops with
+        | some v => some ⟨0, v⟩
+        | none => s.outputs.get b k := by
+  intro ops
+  induction ops with
+  | nil => intro s _; rfl
+  | cons op ops ih =>
+    intro s hi
+    rw [run_cons]
+    simp only [lastWrite]
+    rw [ih _ (step_inv c hr hi op)]
+    cases lastWrite b k ops with
+    | some v => rfl
+    | none => exact step_outputs c hr hi op b k
+
+/-! ### re-running over the read set -/
+
+/-- for a key the execution has not written, `Get` answers what the reader holds -/
+theorem get_result {r : Reader} {s : State} (hi : Inv r s) (b : Bucket) (k : Key)
+    (hout : s.outputs.get b k = none) :
+    (get r s b k).2 = match r.get b k with
+      | some d => classify d
+      | none => .notFound := by
+  unfold get
+  rw [hout]
+  cases hin : s.inputs.get b k with
+  | some d => simp only [hi.faithful b k d hin]
+  | none => cases hd : r.get b k <;> simp
+
+theorem get_result_out (r : Reader) (s : State) (b : Bucket) (k : Key) (d : VData)
+    (hout : s.outputs.get b k = some d) :
+    (get r s b k).2 = if d.isDel then .hasDel else .val d.val := by
+  unfold get
+  rw [hout]
+  by_cases h : d.isDel <;> simp [h]
+
+theorem get_recorded_value {r : Reader} {s : State} (hi : Inv r s) (b : Bucket) (k : Key) (d : VData)
+    (hout : s.outputs.get b k = none) (hd : r.get b k = some d) :
+    (get r s b k).1.inputs.get b k = some d := by
+  have hi' := (get_reach r s b k).inv hi
+  rcases get_records r s b k with h | h | h
+  · cases hx : (get r s b k).1.inputs.get b k with
+    | none => exact absurd hx h
+    | some d' => have := hi'.faithful b k d' hx; rw [hd] at this; rw [this]
+  · exact absurd hout h
+  · rw [hd] at h; exact absurd h (by simp)
+
+theorem put_inputs_eq_get (r : Reader) (s : State) (b : Bucket) (k : Key) (v : Nat) :
+    (put r s b k v).inputs = if b = transient then s.inputs else (get r s b k).1.inputs := by
+  unfold put
+  by_cases hb : b = transient <;> simp [hb]
+
+/-- One step of the simulation behind `replay_deterministic`.  `RS` is the final read set of the
+first run; the re-run uses `memReader RS`.  As long as the first run's read set stays inside `RS`,
+both runs answer every op identically and keep equal write sets. -/
+theorem replay_step {r : Reader} (hr : r.WF) (RS : Store) (hRS : ∀ b, Sorted (RS b))
+    (hfaith : ∀ b k d, find k (RS b) = some d → r.get b k = some d)
+    (s t : State) (hs : Inv r s) (ht : Inv (memReader RS) t) (hout : t.outputs = s.outputs) (op : Op)
+    (hsub : ∀ b k d, (stepOp fixed r s op).1.inputs.get b k = some d → find k (RS b) = some d) :
+    (stepOp fixed (memReader RS) t op).2 = (stepOp fixed r s op).2 ∧
+    (stepOp fixed (memReader RS) t op).1.outputs = (stepOp fixed r s op).1.outputs := by
+  have hr' : (memReader RS).WF := memReader_wf RS hRS
+  cases op with
+  | get b k =>
+    simp only [stepOp] at hsub ⊢
+    refine ⟨?_, by rw [(get_reach _ t b k).outputs_eq, (get_reach r s b k).outputs_eq, hout]⟩
+    congr 1
+    cases ho : s.outputs.get b k with
+    | some d => rw [get_result_out r s b k d ho, get_result_out _ t b k d (by rw [hout]; exact ho)]
+    | none =>
+      rw [get_result hs b k ho, get_result ht b k (by rw [hout]; exact ho)]
+      show (match find k (RS b) with | some d => classify d | none => GetRes.notFound) = _
+      cases hd : r.get b k with
+      | none =>
+        cases hx : find k (RS b) with
+        | none => rfl
+        | some d => rw [hfaith b k d hx] at hd; exact absurd hd (by simp)
+      | some d => rw [hsub b k d (get_recorded_value hs b k d ho hd)]
+  | put b k v =>
+    simp only [stepOp]
+    exact ⟨trivial, by rw [put_outputs, put_outputs, hout]⟩
+  | del b k =>
+    simp only [stepOp, del]
+    exact ⟨trivial, by rw [put_outputs, put_outputs, hout]⟩
+  | sel b lo hiB n =>
+    simp only [stepOp] at hsub ⊢
+    refine ⟨?_, by rw [(select_reach fixed hr' ht b lo hiB n).outputs_eq,
+      (select_reach fixed hr hs b lo hiB n).outputs_eq, hout]⟩
+    congr 1
+    cases hbad : badRange lo hiB with
+    | true => rw [select_bad _ _ _ _ _ _ _ hbad, select_bad _ _ _ _ _ _ _ hbad]
+    | false =>
+      obtain ⟨a1, a2, _, a4⟩ := select_spec fixed r s b lo hiB n hr hs hbad
+      obtain ⟨b1, _, _, _⟩ := select_spec fixed (memReader RS) t b lo hiB n hr' ht hbad
+      rw [a1, b1]
+      congr 2
+      have hs2 : Inv r (select fixed r s b lo hiB n).1 := a2.inv hs
+      apply take_eq_of_sub _ _ n (sorted_selList fixed hr hs b lo hiB) (sorted_selList fixed hr' ht b lo hiB)
+      · -- whatever the re-run yields, the first run yields
+        intro x hx
+        rw [mem_selList_fixed hr' ht] at hx
+        rw [mem_selList_fixed hr hs]
+        obtain ⟨h1, h2⟩ := hx
+        refine ⟨h1, ?_⟩
+        rw [hout] at h2
+        rcases h2 with h2 | ⟨h2, h3, h4⟩
+        · exact Or.inl h2
+        · refine Or.inr ⟨h2, ?_, h4⟩
+          have hg : r.get b x.1 = some x.2 := hfaith b x.1 x.2 (mem_find_of_sorted (hRS b) h3)
+          rcases hr.getSel b x.1 x.2 hg with h | h | h
+          · exact h
+          · rw [h4.1] at h; exact absurd h (by simp)
+          · rw [h4.2] at h; exact absurd h (by simp)
+      · -- what the first run consumed has been recorded, hence the re-run finds it
+        intro x hx
+        have hxL := List.mem_of_mem_take hx
+        rw [mem_selList_fixed hr hs] at hxL
+        rw [mem_selList_fixed hr' ht, hout]
+        obtain ⟨h1, h2⟩ := hxL
+        refine ⟨h1, ?_⟩
+        rcases h2 with h2 | ⟨h2, h3, h4⟩
+        · exact Or.inl h2
+        · refine Or.inr ⟨h2, ?_, h4⟩
+          have hg : r.get b x.1 = some x.2 := hr.selGet b x.1 x.2 h3
+          have hnone : s.outputs.get b x.1 = none := find_none_iff.mpr h2
+          have hrec := a4 x hx x (mem_rangeOf.mpr ⟨h3, h1⟩) (Nat.le_refl _)
+          have hin : (select fixed r s b lo hiB n).1.inputs.get b x.1 = some x.2 := by
+            rcases hrec with h | h | h
+            · cases hv : (select fixed r s b lo hiB n).1.inputs.get b x.1 with
+              | none => exact absurd hv h
+              | some d' => have := hs2.faithful b x.1 d' hv; rw [hg] at this; rw [this]
+            · rw [a2.outputs_eq] at h; exact absurd hnone h
+            · rw [hg] at h; exact absurd h (by simp)
+          exact find_some_mem (hsub b x.1 x.2 hin)
+
+theorem step_inv_mem (RS : Store) (hRS : ∀ b, Sorted (RS b)) (t : State) (ht : Inv (memReader RS) t) (op : Op) :
+    Inv (memReader RS) (stepOp fixed (memReader RS) t op).1 :=
+  step_inv fixed (memReader_wf RS hRS) ht op
+
+theorem replay_aux {r : Reader} (hr : r.WF) (RS : Store) (hRS : ∀ b, Sorted (RS b))
+    (hfaith : ∀ b k d, find k (RS b) = some d → r.get b k = some d) :
+    ∀ (ops : List Op) (s t : State), Inv r s → Inv (memReader RS) t → t.outputs = s.outputs →
+      (∀ b k d, (run fixed r s ops).1.inputs.get b k = some d → find k (RS b) = some d) →
+      (run fixed (memReader RS) t ops).2 = (run fixed r s ops).2 ∧
+      (run fixed (memReader RS) t ops).1.outputs = (run fixed r s ops).1.outputs := by
+  intro ops
+  induction ops with
+  | nil => intro s t _ _ hout _; exact ⟨rfl, hout⟩
+  | cons op ops ih =>
+    intro s t hs ht hout hsub
+    rw [run_cons] at hsub ⊢
+    rw [run_cons]
+    have hs1 := step_inv fixed hr hs op
+    have hsub1 : ∀ b k d, (stepOp fixed r s op).1.inputs.get b k = some d → find k (RS b) = some d :=
+      fun b k d h => hsub b k d (run_mono fixed hr ops _ hs1 b k d h)
+    obtain ⟨e1, e2⟩ := replay_step hr RS hRS hfaith s t hs ht hout op hsub1
+    obtain ⟨i1, i2⟩ := ih _ _ hs1 (step_inv_mem RS hRS t ht op) e2 hsub
+    simp only
+    exact ⟨by rw [e1, i1], i2⟩
+
 end XV.Sandbox
